@@ -63,6 +63,10 @@ def make_plan(seed: int, tier: str) -> dict:
         # the mixture model has no hand-written parameter file in this harness: whole fits only
         plan["world"]["kind"] = "mixture"
         plan["workload"] = "fit"
+    elif st.bernoulli(0.15) and not kind.startswith("joint"):
+        # the benchmark `constant` model personalised on the very same (corrupted / padded) dataset, each documented prediction type
+        plan["workload"] = "constant_prediction"
+        plan["prediction_type"] = st.choice(["last", "last-known", "max", "mean", "mean"])
     return plan
 
 
@@ -308,6 +312,37 @@ def run_plan(plan: dict) -> dict:
                 yb = mb.compute_individual_trajectory(ages, ipd).numpy()
             if not (np.array_equal(ya, yb, equal_nan=True) if exact else np.allclose(ya, yb, rtol=1e-4, atol=1e-6, equal_nan=True)):
                 violation(out, "twin_history", f"trajectories_at_real_visits_differ:{'poison' if exact else 'padding'}", where)
+    elif plan["workload"] == "constant_prediction":
+        from leaspy.models import ConstantModel
+
+        ptype = plan["prediction_type"]
+        C["probe.constant_model." + ptype] += 1
+        res = []
+        for ds in (wa.dataset, wb.dataset):
+            try:
+                with ac.quiet():
+                    ip = ConstantModel("constant").personalize(ds, "constant_prediction", prediction_type=ptype)
+                res.append((ip._individual_parameters, None))
+            except Exception as e:
+                res.append((None, e))
+        (da, ea), (db, eb) = res
+        if ea is not None:
+            out["discarded"] = f"clean_twin_raised:{type(ea).__name__}"
+            return _finish(out, plan, log, C)
+        if eb is not None:
+            violation(out, "twin_completes", f"corrupted_twin_raised:{type(eb).__name__}:constant:{'poison' if exact else 'padding'}:{ptype}", f"{where}: {type(eb).__name__}: {str(eb)[:200]}")
+            return _finish(out, plan, log, C)
+        C["probe.personalize_twin_compared"] += 1
+        C["probe.poison_twin_compared" if exact else "probe.padding_twin_compared"] += 1
+        for pid in da:
+            for k_ in da[pid]:
+                a, b = np.asarray(da[pid][k_], dtype=np.float64), np.asarray(db.get(pid, {}).get(k_, np.nan), dtype=np.float64)
+                if a.shape != b.shape or not np.allclose(a, b, rtol=1e-6, atol=1e-7, equal_nan=True):
+                    nonfin = (~np.isfinite(b)).any() and np.isfinite(a).all()
+                    violation(out, "twin_history", f"{'nonfinite_in_poisoned_twin' if nonfin else 'values_differ'}:personalize:constant_prediction:{ptype}:{'poison' if exact else 'padding'}",
+                              f"{where}: {pid}.{k_}: clean {a.tolist()} vs corrupted {b.tolist()}")
+                    return _finish(out, plan, log, C)
+        log.add("constant", ptype, len(da))
     else:
         # personalisation of the same cohort by a model loaded from hand-written parameters
         algo = plan["workload"]
